@@ -23,6 +23,9 @@ type obsText struct {
 	owner    string // id of the nearest enclosing element that carries an id (markers: the list item)
 	margin   bool   // inside a page-margin box
 	fsZero   bool   // font-size 0: webrender does not draw such text
+	// computed color with alpha 0 (transparent / rgba(..,0)): laid out and drawn like any other run
+	transparent bool
+	flFloat     bool // inside the block box of a floated ::first-letter (drop cap)
 }
 
 // obsDoc is everything observed from the laid-out pages.
@@ -61,11 +64,27 @@ func stripWS(s string) string {
 // observePages walks the laid-out pages in order, depth first, children in tree order.
 func observePages(pages []*bo.PageBox, flowRoots, hiddenIDs, visibleIDs map[string]bool) *obsDoc {
 	od := &obsDoc{pages: len(pages), elemPages: map[string][]int{}}
+	var hoisted map[string]bool
+	var skip map[*bo.TextBox]bool
 	for pi, p := range pages {
 		frags := map[string]int{}
 		od.tableFrags = append(od.tableFrags, frags)
-		var walk func(b bo.Box, flow, owner string, hidden, margin bool, hiddenBy string)
-		walk = func(b bo.Box, flow, owner string, hidden, margin bool, hiddenBy string) {
+		emit := func(t *bo.TextBox, flow, owner string, hidden, margin bool, hiddenBy string, flFloat bool) {
+			f := t.Box()
+			ot := obsText{page: pi, flow: flow, text: string(t.Text), hidden: hidden, hiddenBy: hiddenBy, pseudo: f.PseudoType, owner: owner, margin: margin}
+			ot.x = float64(f.PositionX)
+			ot.y = float64(f.PositionY) + float64(f.Baseline.V())
+			if f.Style != nil && f.Style.GetFontSize().Value < 1e-6 {
+				ot.fsZero = true
+			}
+			if f.Style != nil && f.Style.GetColor().RGBA.A == 0 {
+				ot.transparent = true
+			}
+			ot.flFloat = flFloat
+			od.texts = append(od.texts, ot)
+		}
+		var walk func(b bo.Box, flow, owner string, hidden, margin bool, hiddenBy string, flFloat bool)
+		walk = func(b bo.Box, flow, owner string, hidden, margin bool, hiddenBy string, flFloat bool) {
 			declares := func(id string) {
 				if hiddenIDs[id] {
 					hidden = true
@@ -78,6 +97,9 @@ func observePages(pages []*bo.PageBox, flowRoots, hiddenIDs, visibleIDs map[stri
 				}
 			}
 			f := b.Box()
+			if f.PseudoType == "first-letter" && f.Style != nil && f.Style.GetFloat() != "none" {
+				flFloat = true
+			}
 			if f.PseudoType != "" {
 				// a pseudo-element box belongs to its element wherever it sits in the tree (the
 				// remainder of a marker split at a page bottom is a child of the root box)
@@ -104,25 +126,56 @@ func observePages(pages []*bo.PageBox, flowRoots, hiddenIDs, visibleIDs map[stri
 					}
 				}
 			}
-			if t, ok := b.(*bo.TextBox); ok {
-				ot := obsText{page: pi, flow: flow, text: string(t.Text), hidden: hidden, hiddenBy: hiddenBy, pseudo: f.PseudoType, owner: owner, margin: margin}
-				ot.x = float64(f.PositionX)
-				ot.y = float64(f.PositionY) + float64(f.Baseline.V())
-				if f.Style != nil && f.Style.GetFontSize().Value < 1e-6 {
-					ot.fsZero = true
+			if id := elemID(f); f.PseudoType == "" && id != "" && !hoisted[id] {
+				// A floated ::first-letter (drop cap) is out of flow: where its box sits among the
+				// boxes of the first line is not text order.  It is read as the start of the content
+				// of its paragraph (the generator makes it the paragraph's own first text).
+				for _, lt := range floatedLetters(b, id) {
+					if hoisted == nil {
+						hoisted = map[string]bool{}
+						skip = map[*bo.TextBox]bool{}
+					}
+					hoisted[id] = true
+					skip[lt] = true
+					emit(lt, flow, owner, hidden, margin, hiddenBy, true)
 				}
-				od.texts = append(od.texts, ot)
+			}
+			if t, ok := b.(*bo.TextBox); ok && !skip[t] {
+				emit(t, flow, owner, hidden, margin, hiddenBy, flFloat)
 			}
 			for _, c := range f.Children {
-				walk(c, flow, owner, hidden, margin, hiddenBy)
+				walk(c, flow, owner, hidden, margin, hiddenBy, flFloat)
 			}
 		}
 		for _, c := range p.Children {
 			_, isMargin := c.(*bo.MarginBox)
-			walk(c, "", "", false, isMargin, "")
+			walk(c, "", "", false, isMargin, "", false)
 		}
 	}
 	return od
+}
+
+// floatedLetters returns the TextBoxes of the floated ::first-letter boxes of element id found in
+// the subtree of b, in tree order.
+func floatedLetters(b bo.Box, id string) (out []*bo.TextBox) {
+	var rec func(b bo.Box, in bool)
+	rec = func(b bo.Box, in bool) {
+		f := b.Box()
+		if !in && f.PseudoType == "first-letter" && f.Style != nil && f.Style.GetFloat() != "none" {
+			if elemID(f) != id {
+				return
+			}
+			in = true
+		}
+		if t, ok := b.(*bo.TextBox); ok && in {
+			out = append(out, t)
+		}
+		for _, c := range f.Children {
+			rec(c, in)
+		}
+	}
+	rec(b, false)
+	return out
 }
 
 // obsDraw is one DrawText call.
